@@ -10,7 +10,9 @@ Spec (all keys optional except what differs from the defaults; plain JSON):
    "lead": bool,                 request path starts with '/'
    "listing": bool,              Static(dirlisting=…)
    "segs": [str, …],             path segments, joined by '/'; placeholders {ROOT} {SIB} {ABSPARENT} {ABSROOT}
-   "range": null|str,            literal Range header value
+   "range": null|str,            literal Range header value.  Mode http sends U+0080..U+00FF as the latin-1 byte and any
+                                 higher character UTF-8 encoded, as a client would (the server then reads latin-1 text,
+                                 which is what the oracle judges); mode direct hands the str over as it is
    "proto": "1.1"|"1.0"}
 
 The denotation of a path (what may be served) and the RFC 7233 judgement are computed from the spec and
@@ -264,6 +266,8 @@ def parse_range(value, size):
     clauses are asserted for those.
     """
     feats = set()
+    if any(c.isdigit() and not c.isascii() for c in value):
+        feats.add('non-ascii-digit')      # never DIGIT: such a spec is malformed by the regexes below ([0-9] is ASCII only)
     compact = value.replace(' ', '').replace('\t', '')
     amb = compact != value
     m = _TOKEN_EQ.fullmatch(compact)
@@ -454,11 +458,19 @@ BENIGN = ['a.txt', 'a.txt', 'secret.txt', 'sub', 'sub', 'b.txt', 'deep', 'c.txt'
           'a%20b.txt', 'a b.txt', '%C3%BC.txt', '%c3%bc.txt', '%61.txt', '%2561.txt', 'x.txt', 'A.TXT']
 RANGE_NUM = ['0', '0', '1', '2', '5', '9', '10', '11', '15', '4095', '4096', '4097', '4098', '99999999999999999999', '007']
 RANGE_ODD = ['abc', '-1', '+1', '1_0', '0x1', '1.5', ' 3', '\t4', '1e1']
+# positions written with characters that are digits for str.isdigit()/int() but not DIGIT = %x30-39 (RFC 7233 2.1):
+# latin-1 superscripts (isdigit() true, int() refuses), Unicode decimal digits (int() accepts), circled/fraction forms
+RANGE_NONASCII = ['\xb2', '\xb3', '\xb9', '1\xb2', '\u0663', '\uff15', '1\u0663', '\u0661\u0660', '\u2460', '\xbd']
+
+
+def wire_bytes(value):
+    """Header value as bytes on the wire: latin-1 where possible, UTF-8 above U+00FF."""
+    return b''.join(bytes([ord(c)]) if ord(c) < 256 else c.encode('utf-8') for c in value)
 
 
 def _range_strategy():
     num = st.sampled_from(RANGE_NUM)
-    tok = st.one_of(num, num, num, num, num, st.just(''), st.sampled_from(RANGE_ODD))
+    tok = st.one_of(num, num, num, num, num, st.just(''), st.sampled_from(RANGE_ODD), st.sampled_from(RANGE_NONASCII))
     good = st.one_of(st.tuples(num, st.just('-'), num), st.tuples(num, st.just('-'), st.just('')),
                      st.tuples(st.just(''), st.just('-'), num)).map(''.join)
     odd = st.tuples(tok, st.sampled_from(['-'] * 6 + ['--', ' - ', '']), tok).map(''.join)
@@ -499,7 +511,8 @@ class C16(Prop):
             'Static} x optional Range header from a grammar; (b) enumeration: every path of <=3 (thorough: 4 via HTTP, 5 direct) segments over a 12-segment core '
             'alphabet in both delivery modes, and every Range header of 1-2 specs '
             '(first/last from {"",0,1,len-1,len,len+5,abc} plus malformed extras) x units and 3-spec headers over a '
-            'reduced value set x files of 0/1/10/4097 bytes. Non-trivial = the decoded path leaves the document '
+            'reduced value set x files of 0/1/10/4097 bytes, plus positions written in non-ASCII digit characters '
+            '(latin-1 superscripts, Unicode decimal digits, circled digits; as header bytes and as str handed over directly). Non-trivial = the decoded path leaves the document '
             'root or contains an encoded dot/separator/back-slash segment, or a range spec that is open, suffix, '
             'reversed, out of bounds or non-numeric; distinct = distinct spec hash')
     assumptions = (
@@ -582,6 +595,12 @@ class C16(Prop):
                 for unit in units:
                     for c in combos:
                         out.append({'segs': [fname], 'range': '%s=%s' % (unit, ','.join(c))})
+        # positions in non-ASCII digit characters: alone and next to a well-formed spec, both delivery modes
+        for fname in SIZES:
+            for mode in ('http', 'direct'):
+                for x in RANGE_NONASCII:
+                    for r in (x + '-', '0-' + x, '-' + x, x + '-' + x, '0-0,' + x + '-', '-' + x + ',0-0'):
+                        out.append({'mode': mode, 'segs': [fname], 'range': 'bytes=' + r})
         return out
 
     # ------------------------------------------------------------------ execution
@@ -600,12 +619,12 @@ class C16(Prop):
             with driver.captured_stderr() as err:
                 try:
                     if spec.get('mode', 'http') == 'http':
-                        raw = 'GET %s HTTP/%s\r\nHost: a\r\n' % (path, proto)
+                        raw = ('GET %s HTTP/%s\r\nHost: a\r\n' % (path, proto)).encode('latin-1')
                         if rng is not None:
-                            raw += 'Range: %s\r\n' % rng
-                        raw += '\r\n'
+                            raw += b'Range: ' + wire_bytes(rng) + b'\r\n'
+                        raw += b'\r\n'
                         _AUD['on'] = True
-                        rig.feed(s, raw.encode('latin-1'))
+                        rig.feed(s, raw)
                     else:
                         heads = [('Host', 'a')] + ([('Range', rng)] if rng is not None else [])
                         try:
@@ -637,6 +656,8 @@ class C16(Prop):
         path, mount = build_path(spec, lay)
         rng = spec.get('range')
         mode = spec.get('mode', 'http')
+        if rng is not None and mode == 'http':
+            rng = wire_bytes(rng).decode('latin-1')     # the header text a recipient reads off the wire
         segs = spec.get('segs', [])
         handled, rels, escapes = denote(path, mount, lay)
 
@@ -687,7 +708,7 @@ class C16(Prop):
                     h2, rels2, esc2 = denote(p2, mount, lay)
                     rels = rels + [x for x in rels2 if x not in rels]
                     classes.append('front-end-rewrote-path')
-        res = self._judge(spec, lay, obs, path, mount, handled, rels, escapes, classes, nontrivial, bad)
+        res = self._judge(dict(spec, range=rng), lay, obs, path, mount, handled, rels, escapes, classes, nontrivial, bad)
         if not res.ok:
             return res
         if MARK in obs['out']:
